@@ -215,6 +215,10 @@ def check_program(prog, rot, styles, acc):
         if c2 is not None:
             acc.violation('second_parse_of_same_string_differs', {'what': c2[0]}, {'program': prog, 'style': 'spaced', 'twice': True},
                           observed=c2[1], detail='d=%r parsed again after editing the first result in place' % d0)
+    # the parser's other entry points and its optional arguments: an initial pen position (the leading moveto,
+    # if relative, is relative to it - documented), an xml element to remember, the Path constructor itself
+    if 'spaced' in parsed and len(prog) <= ENTRY_FORMS_MAX_LEN:
+        check_entry_forms(prog, parsed['spaced'], acc)
     # lexically different spellings parse to equal paths
     if len(parsed) > 1:
         items = list(parsed.items())
@@ -225,6 +229,62 @@ def check_program(prog, rot, styles, acc):
                               {'program': prog, 'style': st, 'other_style': items[0][0]},
                               observed=d, expected=items[0][1])
     acc.seen('kinds:' + kinds)
+
+
+ENTRY_FORMS_MAX_LEN = 4
+ENTRY_PENS = [3.5 - 2.25j, 0j, -1000.0 + 7j, 0.1 + 0.2j]
+
+
+def entry_forms(z):
+    import xml.etree.ElementTree as ET
+    el = ET.Element('path')
+    return [('parse_path(d, current_pos=z)', lambda d: parse_path(d, current_pos=z)),
+            ('parse_path(d, z)', lambda d: parse_path(d, z)),
+            ('Path(d, z)', lambda d: Path(d, z)),
+            ('Path(d, current_pos=z)', lambda d: Path(d, current_pos=z)),
+            ('parse_path(d, current_pos=z, tree_element=el)', lambda d: parse_path(d, current_pos=z, tree_element=el)),
+            ('parse_path(d, z, el)', lambda d: parse_path(d, z, el)),
+            ('parse_path(d, tree_element=el) [pen 0]', lambda d: parse_path(d, tree_element=el))]
+
+
+def check_entry_forms(prog, d, acc, only=None):
+    for z in ENTRY_PENS:
+        try:
+            ref = refsvg.interpret(prog, current=z)
+        except refsvg.Ungrammatical:
+            return
+        for name, fn in entry_forms(z):
+            zz = z
+            if name.endswith('[pen 0]'):
+                if z != ENTRY_PENS[0]:
+                    continue
+                zz = 0j
+                ref_ = refsvg.interpret(prog)
+            else:
+                ref_ = ref
+            if only and (only['entry'], only['pen']) != (name, core.jz(z)):
+                continue
+            case = {'program': prog, 'style': 'spaced', 'entry': name, 'pen': core.jz(z)}
+            acc.case((d, name, core.jz(z)), cls='entry:%s' % name.split('(')[0] + ('/relative_first' if prog[0][0] == 'm' else '/absolute_first'),
+                     nontrivial=len(ref_) > 0, unique=True)
+            r = outcome(lambda: fn(d))
+            sig = {'entry': name, 'first_moveto': 'relative' if prog[0][0] == 'm' else 'absolute', 'pen_is_origin': zz == 0}
+            if r[0] != 'ok':
+                acc.violation('parse_differs_from_reference', dict(sig, what='raises:' + r[1]), case, observed=r)
+                continue
+            pth = r[1]
+            bad = None
+            if len(pth) != len(ref_):
+                bad = ('segment_count', '%d != %d' % (len(pth), len(ref_)))
+            else:
+                for i, (sg, rs) in enumerate(zip(pth, ref_)):
+                    m = seg_matches(sg, rs)
+                    if m:
+                        bad = ('segment_mismatch', 'segment %d: %s' % (i, m))
+                        break
+            if bad:
+                acc.violation('parse_differs_from_reference', dict(sig, what=bad[0]), case, observed=bad[1],
+                              expected=[list(map(core.jz, s_[1:])) for s_ in ref_], detail='d=%r' % d)
 
 
 TAME = [1.0, -2.0, 3.5, 0.25, -0.75, 0.1, 2.3, -6.7, 0.6, -3.3, 0.2, 2.75, -0.3, 0.7, 5.5, -1.25, 0.9]
@@ -364,6 +424,9 @@ def replay(case):
     prog = [(l, a) for l, a in case['program']]
     if case.get('twice'):
         check_program(prog, 0, ['spaced'], acc)
+        return acc.vlist
+    if case.get('entry'):
+        check_entry_forms(prog, refsvg.render(prog, 'spaced'), acc, only=case)
         return acc.vlist
     check_program(prog, 0, [case['style']] + ([case['other_style']] if 'other_style' in case else []), acc)
     return acc.vlist
